@@ -103,7 +103,7 @@ func selfTest(c *Ctx) (int, error) {
 		}
 		c.logf("refinement: %s = TRUE (what the pinned code did) is rejected by the contract clauses", dev)
 	}
-	for dev, want := range map[string]string{"DevPeekWholeBuffer = FALSE": "", "DevPeekAtStreamEnd = FALSE": "", "Direct = TRUE": ""} {
+	for dev, want := range map[string]string{"DevPeekWholeBuffer = FALSE": "", "DevPeekAtStreamEnd = FALSE": "", "DevResetKeepsWindow = FALSE": "", "Direct = TRUE": ""} {
 		_ = want
 		b, err := os.ReadFile(filepath.Join(c.specDir(), "MC_ReaderRefine.cfg"))
 		if err != nil {
